@@ -78,3 +78,27 @@ Theorem src64_yearday_meets_spec : forall f, valid_fields f = true -> int64 (fy 
 Proof. exact src64_yearday_meets_spec_lemma. Qed.
 Print Assumptions src64_yearday_meets_spec.
 
+
+From CCTZ Require Import Source64 Source64Proofs Source64MoreProofs.
+(* MORE OF civil_time_detail.h AS CLANG READS IT NOW (Source64.v, regenerated every run; templates read through their
+   instantiations in a probe translation unit, overloads resolved by clang): the civil_time constructors, conversions,
+   operators and next/prev_weekday.  Source64MoreProofs.v ties each to the hand-written model and composes with the
+   refinement theorems: the CURRENT source meets the calendar specification, with no intermediate overflow. *)
+Theorem src64m_next_weekday_meets_spec : forall f w,
+  valid_fields f = true -> (fhh f = 0 /\ fmm f = 0 /\ fss f = 0) -> int64 (fy f) -> 0 <= w <= 6 ->
+  exists k, 1 <= k <= 7 /\
+    weekday_of_days (days_from_civil (fy f) (fm f) (fd f) + k) = w /\
+    (forall j, 1 <= j < k -> weekday_of_days (days_from_civil (fy f) (fm f) (fd f) + j) <> w) /\
+    (int64 (fy (civil_of_seconds ((days_from_civil (fy f) (fm f) (fd f) + k) * 86400))) ->
+     s64_next_weekday s64_fuel f w = OK (civil_of_seconds ((days_from_civil (fy f) (fm f) (fd f) + k) * 86400))).
+Proof. exact Source64MoreProofs.src64m_next_weekday_meets_spec. Qed.
+Print Assumptions src64m_next_weekday_meets_spec.
+Theorem src64m_prev_weekday_meets_spec : forall f w,
+  valid_fields f = true -> (fhh f = 0 /\ fmm f = 0 /\ fss f = 0) -> int64 (fy f) -> 0 <= w <= 6 ->
+  exists k, 1 <= k <= 7 /\
+    weekday_of_days (days_from_civil (fy f) (fm f) (fd f) - k) = w /\
+    (forall j, 1 <= j < k -> weekday_of_days (days_from_civil (fy f) (fm f) (fd f) - j) <> w) /\
+    (int64 (fy (civil_of_seconds ((days_from_civil (fy f) (fm f) (fd f) - k) * 86400))) ->
+     s64_prev_weekday s64_fuel f w = OK (civil_of_seconds ((days_from_civil (fy f) (fm f) (fd f) - k) * 86400))).
+Proof. exact Source64MoreProofs.src64m_prev_weekday_meets_spec. Qed.
+Print Assumptions src64m_prev_weekday_meets_spec.
